@@ -214,7 +214,7 @@ func c16newCache(base string) string {
 
 func c16rm(dir string) { modcache.RemoveAll(dir) }
 
-var c16singleOps = [][]c16w.Op{{{"fetch", "v0.0.1"}, {"modfile", "v0.0.1"}}}
+var c16singleOps = [][]c16w.Op{{{Op: "fetch", Ver: "v0.0.1"}, {Op: "modfile", Ver: "v0.0.1"}}}
 
 func init() {
 	register("C16", "fault_enumeration", func(c *Ctx) {
@@ -469,7 +469,7 @@ func init() {
 			// whatever happened, the cache must now be consistent and a clean run must work
 			key := fmt.Sprintf("C16|conc-%d", h)
 			c16checkInspect(c, c16exec(c, plain, mkspec(cache, "inspect", nil), nil, nil, base), false, key, "after a concurrent history", map[string]any{"history": h})
-			c16checkClean(c, c16exec(c, plain, mkspec(cache, "run", [][]c16w.Op{{{"fetch", "v0.0.1"}, {"fetch", "v0.0.2"}, {"modfile", "v0.0.2"}}}), nil, nil, base), key, "after a concurrent history", map[string]any{"history": h})
+			c16checkClean(c, c16exec(c, plain, mkspec(cache, "run", [][]c16w.Op{{{Op: "fetch", Ver: "v0.0.1"}, {Op: "fetch", Ver: "v0.0.2"}, {Op: "modfile", Ver: "v0.0.2"}}}), nil, nil, base), key, "after a concurrent history", map[string]any{"history": h})
 		})
 		c.Set("distinct_concurrent_histories", len(hashes))
 		c.CheckRaceLogs(mon.RaceLogPrefix())
